@@ -10,7 +10,7 @@ import lib
 ID = 'C14'
 GEN_FILES = ['T_require', 'T_files_build', 'T_lexer', 'T_parser']
 COQ_PROPERTY = 'theories/Properties/C14.vo'
-COQ_EXTRA = ['theories/Proofs/ReqEmbedInstProofs.vo']
+COQ_EXTRA = ['theories/Proofs/ReqEmbedInstProofs.vo', 'theories/Proofs/SpecLexChunk.vo']
 MODEL = ('ExC14', 'c14_main.ml')
 MONITOR = ('MonC14', 'c14_mon_main.ml')
 CASE_TIMEOUT = 60
@@ -31,7 +31,10 @@ ASSUMPTIONS = [
     'token, as it silently does after a `return`) is outside C14 (that is C07 / C08); such runs are compared with '
     'the model but not judged',
 ]
-PARTIAL = ('The token-level clause (significant tokens of the result = header ++ package blocks ++ loader ++ main '
+PARTIAL = ('C14_reference_chunking / C14_reference_final_lf prove the chunking property of the reference tokenizer, and '
+           'C14_tokens_spec_partial states the token-level clause for the concrete stack against that tokenizer with the '
+           'constants computed; its one remaining hypothesis is the token-faithful echo of the lexer model (C06). '
+           'The token-level clause (significant tokens of the result = header ++ package blocks ++ loader ++ main '
            'tokens, package bodies intact apart from the stripped game-loop functions) is proved only RELATIVE to '
            'hypotheses that are visible in the statements and not discharged for the concrete stack: '
            'C14_tokens_partial / C14_tokens_partial_now assume the reference tokenizer\'s chunking property (a text '
